@@ -341,6 +341,12 @@ pub struct Out(pub Sender<Ev>);
 impl Out {
     pub fn begin(&self, stub: &str, input: Value) {
         let _ = self.0.send(Ev::Begin { stub: stub.to_string(), input });
+        // self-test hook for the watchdog path only: MELDA_VERIF_SELFTEST_HANG=<substring of a scenario id>
+        if let Ok(pat) = std::env::var("MELDA_VERIF_SELFTEST_HANG") {
+            if !pat.is_empty() && stub.contains(&pat) {
+                std::thread::sleep(Duration::from_secs(3600));
+            }
+        }
     }
     pub fn case(&self, key: &str, nontrivial: bool) {
         let _ = self.0.send(Ev::Case { key: key.to_string(), nontrivial });
